@@ -108,15 +108,26 @@ theorem goodSlice (src : Bytes) (g te : Nat) (hg : IsLineStart src g) (hte : IsL
 
 /-! ## the loop of `print_matches_with_prefix` -/
 
-/-- a match that `push_matched_to_ret` appends unchanged: inside the file, no `\r`, not ending
-with a newline -/
+/-- a match that `push_matched_to_ret` appends unchanged: inside the file, no `\r` (whether or not
+it ends with a newline, since 0b29009) -/
 def PlainMatch (src : Bytes) (se : Nat × Nat) : Prop :=
-  se.1 ≤ se.2 ∧ se.2 ≤ src.length ∧ CR ∉ slice src se.1 se.2 ∧
-    (slice src se.1 se.2).getLast? ≠ some NL
+  se.1 ≤ se.2 ∧ se.2 ≤ src.length ∧ CR ∉ slice src se.1 se.2
+
+theorem pushMatched_eq (ret m : Bytes) (hcr : CR ∉ m) : pushMatched ret m = ret ++ m := by
+  unfold pushMatched
+  cases hs : strLines m with
+  | nil => simp [(strLines_eq_nil m).mp hs]
+  | cons l ls =>
+    have h := joinLines_strLines_tail m hcr
+    rw [hs] at h
+    simp only
+    split
+    · next he => rw [he] at h; simp at h; rw [List.append_assoc]; simp [h]
+    · next he => simp [he] at h; rw [h]
 
 theorem pushMatched_plain (src ret : Bytes) (se : Nat × Nat) (h : PlainMatch src se) :
-    pushMatched ret (slice src se.1 se.2) = ret ++ slice src se.1 se.2 := by
-  simp [pushMatched, joinLines_strLines _ h.2.2.1 h.2.2.2]
+    pushMatched ret (slice src se.1 se.2) = ret ++ slice src se.1 se.2 :=
+  pushMatched_eq ret _ h.2.2
 
 /-- the loop invariant: the pending group `ret ++ last_trailing` is the slice of whole lines from
 the line start `g` (numbered `last_start_line`) to the line end `te` -/
@@ -150,7 +161,7 @@ theorem prefixLoop_good (src : Bytes) (b a : Nat) (ms : List (Nat × Nat)) :
     obtain ⟨s, e⟩ := se
     have hplain : PlainMatch src (s, e) := hpl (s, e) (by simp)
     have hpl' : ∀ se ∈ ms, PlainMatch src se := fun se hse => hpl se (List.mem_cons_of_mem _ hse)
-    obtain ⟨hse, he, _, _⟩ := id hplain
+    obtain ⟨hse, he, _⟩ := id hplain
     simp only at hse he
     simp only [prefixLoop] at h
     split at h
@@ -203,7 +214,7 @@ theorem printMatchesWithPrefix_good (src : Bytes) (b a : Nat) (ms : List (Nat ×
   | cons se ms =>
     obtain ⟨s, e⟩ := se
     have hplain : PlainMatch src (s, e) := hpl (s, e) (by simp)
-    obtain ⟨hse, he, _, _⟩ := id hplain
+    obtain ⟨hse, he, _⟩ := id hplain
     simp only at hse he
     obtain ⟨ls, te', hls, hte', hdc, hLS, hLE, _, _⟩ := displayContext_index src s e b a hse he
     simp only [printMatchesWithPrefix, Merger.ofMatch, hdc, Option.bind_eq_bind, Option.bind_some,
